@@ -290,6 +290,10 @@ def run(res, tier, lean, prop="C01", proof_breaks=(), build_log=""):
     if prop in ("C07", "C02"):
         # the directory vanishes just before its add-watch and is back, with a file inside, before the walk reaches it
         plan += [("faultback", k) for k in ((1, 2, 3, 4, 5) if thorough else (2, 3, 5))]
+    if prop in ("C07", "C02"):
+        # a populated directory tree ARRIVES (moved in from outside) and one of its sub-directories vanishes just before the
+        # k-th inotify_add_watch of the library's walk: the rest of the arrived tree must be covered all the same
+        plan += [("faultin", k) for k in ((2, 3, 4, 5, 6) if thorough else (2, 3, 4))]
     if prop == "C07":
         # the same with the vanished directory's name taken by a regular file at once (ENOTDIR instead of ENOENT)
         plan += [("faultfile", k) for k in ((2, 3, 4, 5, 6) if thorough else (2, 4, 6))]
@@ -338,6 +342,10 @@ def run(res, tier, lean, prop="C01", proof_breaks=(), build_log=""):
         elif what is not None and what[0] == "overflow":
             init_b = [("mkdir", "W/d")]
             bursts = [[("create", "W/a")], [("create", "W/d/b")], [("mkdir", "W/n")], [("create", "W/n/a"), ("write", "W/n/a")]]
+        elif what is not None and what[0] == "faultin":
+            init_b = [("mkdir", "O/n"), ("mkdir", "O/n/a"), ("mkdir", "O/n/b"), ("mkdir", "O/n/d"), ("mkdir", "O/n/dd"),
+                      ("create", "O/n/dd/b"), ("mkdir", "O/n/b/d"), ("mkdir", "W/d")]
+            bursts = [[("rename", "O/n", "W/n")], [("create", "W/d/a")]]
         elif what is not None and what[0] in ("fault", "faultfile", "faultback"):
             init_b = [("mkdir", "W/d")]
             bursts = [[("mkdir", "W/n"), ("mkdir", "W/n/a"), ("mkdir", "W/n/b"), ("mkdir", "W/n/d"), ("mkdir", "W/n/dd"),
